@@ -127,7 +127,7 @@ impl XmlReader {
             file.processed.store(false, std::sync::atomic::Ordering::SeqCst);
         }
 
-        Self::read_xml_internal(content, start_with_file, files, &[])
+        Self::read_xml_internal(content, start_with_file, files, &[], &[])
     }
 
     #[cfg(test)]
@@ -142,6 +142,7 @@ impl XmlReader {
         file_name: &str,
         files: &Files,
         known_namespaces: &[Rc<Namespace>],
+        known_nodes: &[Rc<RustNode>],
     ) -> WriterResult<RustDocument> {
         if file.processed.load(std::sync::atomic::Ordering::SeqCst) {
             let rust_doc = RustDocument::empty();
@@ -151,7 +152,7 @@ impl XmlReader {
         let xml = &file.xml;
         let doc = roxmltree::Document::parse(xml)
             .map_err(|e| WriterError::new(format!("Unable to parse file {file_name}: {e}")))?;
-        let mut rust_doc = RustDocument::init_with_known_namespaces(&doc, known_namespaces);
+        let mut rust_doc = RustDocument::init_with_known_namespaces(&doc, known_namespaces, known_nodes);
 
         // mark the file before its imports are followed, so that import cycles (mutual and self
         // imports) find it processed instead of re-entering it
@@ -234,7 +235,10 @@ impl XmlReader {
     fn read_xsd<'n>(node: Node<'n, 'n>, files: &Files, doc: &mut RustDocument) -> WriterResult<()> {
         for child in node.children() {
             if child.tag_name().name() == "import" {
-                let imported = Self::process_import(child, files, &doc.namespaces)?;
+                // the imported file may refer to what has been read so far (a file that is imported
+                // along two paths is only read on the first one)
+                let known_nodes: Vec<Rc<RustNode>> = doc.known_nodes.iter().chain(doc.nodes.iter()).cloned().collect();
+                let imported = Self::process_import(child, files, &doc.namespaces, &known_nodes)?;
                 doc.extend(imported);
                 continue;
             }
@@ -247,7 +251,12 @@ impl XmlReader {
         Ok(())
     }
 
-    fn process_import(node: Node, files: &Files, known_namespaces: &[Rc<Namespace>]) -> WriterResult<RustDocument> {
+    fn process_import(
+        node: Node,
+        files: &Files,
+        known_namespaces: &[Rc<Namespace>],
+        known_nodes: &[Rc<RustNode>],
+    ) -> WriterResult<RustDocument> {
         let namespace = node.attribute("namespace").ok_or(WriterError::NamespaceMissing)?;
 
         if WELL_KNOWN_NAMESPACES.contains(&namespace) {
@@ -267,7 +276,7 @@ impl XmlReader {
             return Ok(RustDocument::empty());
         }
 
-        let rust_doc = Self::read_xml_internal(file, schema_location, files, known_namespaces)?;
+        let rust_doc = Self::read_xml_internal(file, schema_location, files, known_namespaces, known_nodes)?;
         Ok(rust_doc)
     }
 }
@@ -285,7 +294,7 @@ mod tests {
         const XSD: &str = include_str!("../test-data/single-complex.xsd");
         let files = Files::new("types.xsd", XSD);
         let (file_name, file) = files.map.get_key_value("types.xsd").unwrap();
-        let nodes = XmlReader::read_xml_internal(file, file_name, &files, &[]).unwrap().nodes;
+        let nodes = XmlReader::read_xml_internal(file, file_name, &files, &[], &[]).unwrap().nodes;
         assert_eq!(nodes.len(), 1);
         let node = nodes.first().unwrap();
         let RustType::Complex(props) = &node.rust_type else {
@@ -322,7 +331,7 @@ mod tests {
         files.add("types.xsd", XSD_TYPES);
 
         let (file_name, file) = files.map.get_key_value("messages.xsd").unwrap();
-        let nodes = XmlReader::read_xml_internal(file, file_name, &files, &[]).unwrap().nodes;
+        let nodes = XmlReader::read_xml_internal(file, file_name, &files, &[], &[]).unwrap().nodes;
         assert_eq!(nodes.len(), 2);
 
         let type_node = nodes.first().unwrap();
@@ -369,7 +378,7 @@ mod tests {
         let files = Files::new("types.xsd", XSD_TYPES);
 
         let (file_name, file) = files.map.get_key_value("types.xsd").unwrap();
-        let rust_doc = XmlReader::read_xml_internal(file, file_name, &files, &[]).unwrap();
+        let rust_doc = XmlReader::read_xml_internal(file, file_name, &files, &[], &[]).unwrap();
 
         // check that we found the two namespaces
         assert_eq!(rust_doc.namespaces.len(), 2, "Expected two namespaces");
@@ -422,7 +431,7 @@ mod tests {
         let files = Files::new("types.xsd", XSD_TYPES);
 
         let (file_name, file) = files.map.get_key_value("types.xsd").unwrap();
-        let rust_doc = XmlReader::read_xml_internal(file, file_name, &files, &[]).unwrap();
+        let rust_doc = XmlReader::read_xml_internal(file, file_name, &files, &[], &[]).unwrap();
         assert_eq!(rust_doc.nodes.len(), 2);
 
         // check node name
@@ -436,7 +445,7 @@ mod tests {
         let files = Files::new("types.xsd", XSD_TYPES);
 
         let (file_name, file) = files.map.get_key_value("types.xsd").unwrap();
-        let rust_doc = XmlReader::read_xml_internal(file, file_name, &files, &[]).unwrap();
+        let rust_doc = XmlReader::read_xml_internal(file, file_name, &files, &[], &[]).unwrap();
         assert_eq!(rust_doc.nodes.len(), 3);
 
         // check node name
@@ -452,7 +461,7 @@ mod tests {
         files.add("types.xsd", XSD_TYPES);
 
         let (file_name, file) = files.map.get_key_value("messages.xsd").unwrap();
-        let nodes = XmlReader::read_xml_internal(file, file_name, &files, &[]).unwrap().nodes;
+        let nodes = XmlReader::read_xml_internal(file, file_name, &files, &[], &[]).unwrap().nodes;
         assert_eq!(nodes.len(), 1457);
 
         // get the GetUserAvailabilityRequestType
